@@ -50,7 +50,13 @@ RECURSIVE SenWhy(_, _, _)
 SenWhy(e, g, ctx) ==
   CASE e.t = "null" -> IF g.t = "null" THEN <<>> ELSE <<ctx, "null", "read-as", g.t>>
     [] e.t = "bool" -> IF g.t = "bool" /\ g.v = e.v THEN <<>> ELSE <<ctx, "bool", "read-as", g.t>>
-    [] IsNum(e) -> IF IsNum(g) /\ DecCmp(NumDec(g), NumDec(e)) = 0 THEN <<>> ELSE <<ctx, e.t, "read-as", g.t>>
+    \* a float64 keeps its value iff what was read lies between the midpoints to its neighbours: a float64 result is then the same
+    \* float64; ALLOWANCE: a json.Number result (the reader keeps long literals as text) denotes the literal, which is the shortest
+    \* text of that float64 - accepted under the same criterion.  Integers must come back exactly.
+    [] IsNum(e) -> IF IsNum(g) /\ (IF e.t = "flt" /\ "lo" \in DOMAIN e
+                                   THEN DecCmp(e.lo, NumDec(g)) <= 0 /\ DecCmp(NumDec(g), e.hi) <= 0
+                                   ELSE DecCmp(NumDec(g), NumDec(e)) = 0)
+                   THEN <<>> ELSE <<ctx, e.t, "read-as", g.t>>
     [] e.t = "str" -> IF g.t = "str" /\ SameStr(e.v, g.v) THEN <<>> ELSE StrLocus(e.v, ctx) \o <<"read-as", g.t>>
     [] e.t = "arr" -> IF g.t # "arr" THEN <<ctx, "arr", "read-as", g.t>>
                       ELSE LET n == IF Len(e.v) < Len(g.v) THEN Len(e.v) ELSE Len(g.v)
